@@ -233,8 +233,10 @@ def surely_compatible(c, s, flavour, skey):
         if not [k for k in eff(s, "keyExchangeNames")
                 if k.startswith(("ecdhe", "dhe"))]:
             return False, "server disabled every (EC)DHE key exchange name"
-        if not common_curves:
-            return False, "no common (main) curve"
+        common_ff = [g for g in eff(c, "dhGroups") if g in eff(s, "dhGroups")
+                     and g.startswith("ffdhe")]
+        if not common_curves and not common_ff:
+            return False, "no common group"
         if skey == "rsa":
             if "pss" not in eff(c, "rsaSchemes") or \
                     "pss" not in eff(s, "rsaSchemes"):
